@@ -1038,6 +1038,48 @@ impl TokenizedBuffer {
     }
 }
 
+#[cfg(sas_lexer_verif)]
+impl LineInfo {
+    pub(super) fn verif_byte_offset(self) -> u32 {
+        self.byte_offset.get()
+    }
+}
+
+#[cfg(sas_lexer_verif)]
+impl WorkBufferCheckpoint {
+    /// (line count, token count, string literals length)
+    pub(super) fn verif_parts(&self) -> (usize, usize, usize) {
+        (self.line_count, self.token_count, self.string_literals_len)
+    }
+}
+
+#[cfg(sas_lexer_verif)]
+impl WorkTokenizedBuffer {
+    pub(super) fn verif_tokens(&self) -> &[TokenInfo] {
+        &self.token_infos
+    }
+
+    pub(super) fn verif_lines(&self) -> &[LineInfo] {
+        &self.line_infos
+    }
+
+    pub(super) fn verif_lit_len(&self) -> usize {
+        self.string_literals_buffer.len()
+    }
+}
+
+#[cfg(sas_lexer_verif)]
+impl TokenizedBuffer {
+    /// (byte offset, char offset) of every line start
+    #[must_use]
+    pub fn verif_line_starts(&self) -> Vec<(u32, u32)> {
+        self.line_infos
+            .iter()
+            .map(|li| (li.byte_offset.get(), li.start.get()))
+            .collect()
+    }
+}
+
 #[cfg(test)]
 mod tests {
     use super::*;
